@@ -91,6 +91,9 @@ def main():
     except Exception:
         pass
 
+    if os.environ.get('VERIF_DEBUG'):
+        from crosshair.util import set_debug
+        set_debug(True)
     mod = load_module(path)
     fn = getattr(mod, fn_name)
     options = AnalysisOptionSet(
